@@ -57,6 +57,11 @@ def support_and_window(S, rep, dim):
                 rep.ob("C06.b", "%s gather %d" % (vlab, gi), False, "the interpolation does not read the Eulerian field", key="C06.b|%s|%d|noeul" % (vlab, gi))
                 continue
             fixed, win = view_window(e)
+            # the interpolated value REPLACES the marker entry and carries the cell volume once (a constant field returns itself)
+            okv = g.get("aug") is None and g.get("factor") is not None and to_pw(g["factor"]) == comm_n.dx ** dim
+            rep.ob("C06.b", "%s gather %d is lag = dx^%d * sum(field * weights)" % (vlab, gi, dim), okv,
+                   "interpolation %s the marker entry with factor %r" % ("accumulates into" if g.get("aug") else "assigns", g.get("factor")),
+                   key="C06.b|%s|%d|form|%s|%r" % (vlab, gi, g.get("aug"), g.get("factor")), nontrivial=False)
             for k, (lo, hi) in enumerate(win):
                 coord = dim - 1 - k          # array axis k carries coordinate dim-1-k (x on the last axis)
                 ext = simplify_scalar(hi - lo)
@@ -327,7 +332,7 @@ def run(S, tier, rep):
             kernel_identities(S, rep, dim, kind)
     grid_agreement(S, rep)
     rep.require_min("C06.a", 8)
-    rep.require_min("C06.b", 18)
+    rep.require_min("C06.b", 25)
     rep.require_min("C06.c", 12)
     rep.require_min("C06.n", 100)
     rep.require_min("C06.m", 5)
